@@ -202,6 +202,7 @@ class Ctx:
             "trace_events_validated": self.events,
             "samples": self.samples or ["(no sample recorded)"],
             "exhaustive": bool(self.exhaustive),
+            "exhaustive_scope": "the TLC state space of every listed model-checking run marked complete; the traces replayed on / recorded from the implementation are a (seeded) sample unless a note says all emitted cases were replayed",
             "evaluations": max(1, self.traces), "distinct_nontrivial": nontriv, "rule": rule,
             "nontrivial_by_kind": self.nontrivial,
             "model_checking_runs": self.mc_runs,
